@@ -1,6 +1,7 @@
 """C05 - every packet class round-trips under every supported protocol
 version; user-defined field-list packets too."""
 import importlib
+import json
 import math
 
 from hypothesis import strategies as st
@@ -408,6 +409,93 @@ def fields_of(cls, ver):
     return out
 
 
+_CANON = {}
+_CANON_SCRIPT = r"""
+import json, sys
+sys.dont_write_bytecode = True
+sys.path.insert(0, sys.argv[1]); sys.path.insert(0, sys.argv[2])
+from props import c05_roundtrip as P5
+out = {}
+for v in P5.supported():                 # ascending: chronological order
+    for d, s in P5.TABLES:
+        for cls in P5.table(d, s, v):
+            try:
+                fl = P5.fields_of(cls, v)
+            except Exception:
+                continue
+            out['%s/%s/%s/%d' % (d, s, cls.__name__, v)] = \
+                [[n, repr(sp)] for n, t, sp in fl]
+print(json.dumps(out))
+"""
+
+
+def canonical_layouts():
+    """The field list of every (class, version) as a FRESH interpreter
+    computes it that visits the versions once, in chronological order.  A
+    layout is a function of the version alone: whatever this process has
+    done before (other versions first, other connections), it must arrive at
+    the same list."""
+    if 'table' not in _CANON:
+        import os
+        import subprocess
+        import sys
+        from vlib import core
+        here = os.path.dirname(os.path.dirname(os.path.abspath(__file__)))
+        try:
+            r = subprocess.run([sys.executable, '-c', _CANON_SCRIPT, here,
+                                core.REPO], stdout=subprocess.PIPE,
+                               stderr=subprocess.PIPE, timeout=300)
+            _CANON['table'] = json.loads(r.stdout.decode())
+        except Exception as e:
+            raise core.HarnessError('canonical layouts: %r' % (e,))
+    return _CANON['table']
+
+
+def prepare(tier):
+    canonical_layouts()
+
+
+_WITNESS_SCRIPT = r"""
+import json, sys
+sys.dont_write_bytecode = True
+sys.path.insert(0, sys.argv[1]); sys.path.insert(0, sys.argv[2])
+from props import c05_roundtrip as P5
+d, s, name, pv, ver = sys.argv[3], sys.argv[4], sys.argv[5], \
+    int(sys.argv[6]), int(sys.argv[7])
+try:
+    P5.fields_of(P5.find_class(d, s, pv, name), pv)
+except Exception:
+    pass
+fl = P5.fields_of(P5.find_class(d, s, ver, name), ver)
+print(json.dumps([[n, repr(sp)] for n, t, sp in fl]))
+"""
+
+
+def history_witness(case, ver, canon):
+    """a single earlier version that, visited first in a fresh interpreter,
+    already makes the layout at `ver` differ (so that the stored case
+    reproduces on its own); None if no single version does"""
+    import os
+    import subprocess
+    import sys
+    from vlib import core
+    here = os.path.dirname(os.path.dirname(os.path.abspath(__file__)))
+    for pv in list(reversed(P4.ERAS)) + [748, 741, 740]:
+        if pv == ver:
+            continue
+        try:
+            r = subprocess.run(
+                [sys.executable, '-c', _WITNESS_SCRIPT, here, core.REPO,
+                 case['direction'], case['state'], case['cls'], str(pv),
+                 str(ver)], stdout=subprocess.PIPE, stderr=subprocess.PIPE,
+                timeout=120)
+            if json.loads(r.stdout.decode()) != canon:
+                return pv
+        except Exception:
+            continue
+    return None
+
+
 def frame_split(data):
     n, p = wire.read_varint(data, 0)
     if p + n != len(data):
@@ -543,6 +631,21 @@ def defn_case(ctx, case):
     cls = find_class(case['direction'], case['state'], ver, case['cls'])
     ctx.ev()
     fl = fields_of(cls, ver)
+    canon = canonical_layouts().get('%s/%s/%s/%d' % (
+        case['direction'], case['state'], case['cls'], ver))
+    now = [[n_, repr(sp_)] for n_, t_, sp_ in fl]
+    if canon is not None and now != canon:
+        lab = 'layout_history_witness_searched' + (
+            '@' if case.get('prev_version') is not None else '')
+        if not ctx.labels.get(lab):
+            # make the stored case self-contained (once per task and mode)
+            ctx.label(lab)
+            pv = history_witness(case, ver, canon)
+            if pv is not None:
+                case = dict(case, prev_version=pv)
+        ctx.fail('defn', 'F5-layout-depends-on-history', case,
+                 [x[0] for x in now], [x[0] for x in canon])
+        return
     vals = case['values']
     specs = {name: sp for name, t, sp in fl}
     p = cls()
